@@ -17,10 +17,10 @@ PROP = {
             "expression: an item overlaps or touches an earlier one; non-trivial string: clearly invalid, or valid with >=2 items. Histories: "
             "interval config (default / fixed / min<max, >=5s) x port set x 0-45 ops from {write, inject on current/previous/closed socket, advance "
             "(small, exactly to the next hop +-1ns, several intervals), listenFails(k), Set(Read|Write)Deadline, Set(Read|Write)Buffer, LocalAddr, "
-            "read permits, Close} with any op optionally issued at the exact virtual instant of a hop. Non-trivial history: >=3 successful hops "
+            "read permits, Close}, plus in 1/4 of the histories a directed fragment (hops, a read deadline that expires between two hops, deadline cleared, packets on previous/newest socket, drain), with any op optionally issued at the exact virtual instant of a hop. Non-trivial history: >=3 successful hops "
             "and (a failed listen or a packet injected on the previous socket). Distinct = expression text / op-kind sequence with configuration.",
     "assumptions": ["fewer than 1024 undelivered packets are queued at any time (the receive queue is bounded by design and drops beyond that)",
-                    "delivery from the previous socket is only demanded while no read deadline has expired (an expired deadline fills the bounded queue with timeout results)",
+                    "delivery is not demanded for packets arriving while a read deadline has expired (the conn fills its bounded queue with timeout results); it is demanded again as soon as the deadline was cleared/extended and the harness reader has emptied the queue (recvLoops back in ReadFrom)",
                     "the harness empties the receive queue after Close so that a recvLoop parked in its blocking 'timeout result' send can exit (goroutines left after that are reported)",
                     "packets injected at the exact virtual instant of a hop, or concurrently with hops (race variant), are only required not to be invented or duplicated; delivery is demanded for packets injected at quiescent points",
                     "sockets returned by ListenUDPFunc never block in WriteTo/Close/Set*"],
